@@ -611,7 +611,7 @@ class TenSym(PySym):
         if isinstance(n.func, ast.Attribute) and not cn.startswith(("np.", "numpy.", "math.", "warnings.")) and cn not in self.models and cn not in self.funcs:
             recv = self.ex(n.func.value)
             m = n.func.attr
-            if isinstance(recv, (list, tuple)) and m in ("sum", "mean", "reshape", "transpose", "astype", "dot", "max", "min"):
+            if isinstance(recv, (list, tuple)) and m in ("sum", "mean", "prod", "reshape", "transpose", "astype", "dot", "max", "min"):
                 recv = self.to_ten(recv)
             if isinstance(recv, (Ten, Rat)):
                 t = self.to_ten(recv)
@@ -621,6 +621,9 @@ class TenSym(PySym):
                     axis = self.kw(n, "axis", 0)
                     keep = bool(self.kw(n, "keepdims", None, False))
                     return self.unwrap(t.reduce(axis if axis is None or isinstance(axis, (tuple, list)) else self.concrete(axis), keep, mean=(m == "mean")))
+                if m == "prod":
+                    axis = self.kw(n, "axis", 0)
+                    return self.unwrap(t.reduce(axis if axis is None or isinstance(axis, (tuple, list)) else self.concrete(axis), op=lambda x, y: x * y))
                 if m in ("max", "min"):
                     axis = self.kw(n, "axis", 0)
                     return self.opaque_tensor(m, [t, axis], t.reduce(axis).shape)
@@ -676,6 +679,10 @@ class TenSym(PySym):
             return t.transpose([self.concrete(x) for x in perm] if perm else None)
         if cn in ("np.reshape",):
             return self.to_ten(A(0)).reshape([self.concrete(x) for x in A(1)])
+        if cn in ("np.prod",):
+            t = self.to_ten(A(0))
+            axis = self.kw(n, "axis", 1)
+            return self.unwrap(t.reduce(axis if axis is None or isinstance(axis, (tuple, list)) else self.concrete(axis), op=lambda x, y: x * y))
         if cn in ("np.sum", "np.mean", "np.average"):
             t = self.to_ten(A(0))
             axis = self.kw(n, "axis", 1)
